@@ -113,8 +113,8 @@ def _factory_worker(args):
                               {'kind': 'factory', 'factory': qn, 'code': code})
             continue
         except Exception as e:  # noqa
-            acc.violation('factory:%s:raises:%s' % (f.__name__, type(e).__name__), 'code %#x raises %s'
-                          % (code, type(e).__name__), {'kind': 'factory', 'factory': qn, 'code': code})
+            acc.violation('factory:%s:raises:%s' % (f.__name__, core.ename(e)), 'code %#x raises %s'
+                          % (code, core.ename(e)), {'kind': 'factory', 'factory': qn, 'code': code})
             continue
         outcomes.add('member')
         exp = tab.get(code)
@@ -179,12 +179,12 @@ def _check_vector_code(acc, vi, doc, code, prefix, extra):
                               'list' % code, w)
             continue
         except doc as e:
-            acc.violation('%s:%s:rejected:%s' % (prefix, v.__name__, type(e).__name__),
-                          'well-formed list with code %#x rejected with %s' % (code, type(e).__name__), w)
+            acc.violation('%s:%s:rejected:%s' % (prefix, v.__name__, core.ename(e)),
+                          'well-formed list with code %#x rejected with %s' % (code, core.ename(e)), w)
             continue
         except Exception as e:  # noqa
-            acc.violation('%s:%s:raises:%s' % (prefix, v.__name__, type(e).__name__), 'list with code %#x raises %s'
-                          % (code, type(e).__name__), w)
+            acc.violation('%s:%s:raises:%s' % (prefix, v.__name__, core.ename(e)), 'list with code %#x raises %s'
+                          % (code, core.ename(e)), w)
             continue
         items = list(obj)
         nexp = len(body) // width
@@ -210,8 +210,8 @@ def _check_vector_code(acc, vi, doc, code, prefix, extra):
         try:
             back = bytes(obj.compose())
         except Exception as e:  # noqa
-            acc.violation('%s:%s:compose_raises:%s' % (prefix, v.__name__, type(e).__name__),
-                          'parsed list with code %#x cannot be composed: %s' % (code, type(e).__name__), w)
+            acc.violation('%s:%s:compose_raises:%s' % (prefix, v.__name__, core.ename(e)),
+                          'parsed list with code %#x cannot be composed: %s' % (code, core.ename(e)), w)
             continue
         if back != wire:
             acc.violation('%s:%s:not_bit_exact' % (prefix, v.__name__), 'list with code %#x re-composes to different '
@@ -300,7 +300,7 @@ def _hello_worker(args):
             try:
                 outs = [bytes(o.compose()) for _ in range(3)]
             except Exception as e:  # noqa
-                acc.violation('hello:compose_raises:%s' % type(e).__name__, 'client hello with suite %#06x cannot be '
+                acc.violation('hello:compose_raises:%s' % core.ename(e), 'client hello with suite %#06x cannot be '
                               'composed repeatedly' % code, w)
                 continue
             after = [getattr(x, 'name', None) or getattr(getattr(x, 'value', None), 'code', x) for x in list(o.cipher_suites)]
@@ -479,7 +479,7 @@ def _string_worker(_):
                     got = c.parse_exact_size(wire)
                 except Exception as e:  # noqa
                     acc.violation('opaque:%s:member_rejected' % c.__name__, 'name %r rejected: %s'
-                                  % (m.value.code, type(e).__name__), w)
+                                  % (m.value.code, core.ename(e)), w)
                     continue
                 if got is not m:
                     acc.violation('opaque:%s:wrong_member' % c.__name__, '%r decodes to %s' % (m.value.code, got.name), w)
@@ -529,7 +529,7 @@ def _string_worker(_):
                     obj = vcls.parse_exact_size(wire)
                 except Exception as e:  # noqa
                     acc.violation('namelist:%s:rejected' % vcls.__name__, 'name-list %r rejected: %s'
-                                  % (lst, type(e).__name__), w)
+                                  % (lst, core.ename(e)), w)
                     continue
                 items = list(obj)
                 idx = lst.index(name)
